@@ -393,14 +393,14 @@ Definition sprint_accounts (a : assets) (s0 : session) (x' : st) : Prop :=
 
 Lemma ext_accounts : forall a s x', ext a {| session_ := s; sprint_ := empty_sprint |} x' -> sprint_accounts a s x'.
 Proof.
-  intros a s x' [_ (new & S & F & E)]. simpl in S. rewrite S. split; auto.
+  intros a s x' [_ (new & S & F & E)]. simpl in S. unfold sprint_accounts. rewrite S. split; auto.
 Qed.
 
 Theorem start_accounts : forall a t f x', start a t f = ROk x' -> sprint_accounts a (new_session t f) x'.
 Proof.
   intros a t f x'. unfold start. destruct (get_flow a f) as [fl|]; [|discriminate].
   intros H. pose proof (cuw_ext _ _ _ _ _ (loop_inv_start t f (f_type fl)) H) as [_ (new & S & F & E)].
-  simpl in S. rewrite S. split; auto. intros ri. rewrite E. unfold events_of; simpl. destruct ri; reflexivity.
+  simpl in S. unfold sprint_accounts. rewrite S. split; [exact F|]. intros ri. rewrite E. reflexivity.
 Qed.
 
 Lemma apply_resume_ext : forall a x wi sr r, (wi < nruns x)%nat -> ext a x (apply_resume x wi sr r).
@@ -418,22 +418,22 @@ Proof.
                                                                    | _ => s end)) (fun s => set_input s None)) = nruns y).
   { intros y. unfold nruns; simpl. destruct (run_status (session_ y) wi) as [[]|]; try reflexivity.
     unfold upd_run; simpl. apply update_nth_length. }
-  destruct r; unfold apply_resume.
+  destruct r; unfold apply_resume; cbv zeta.
   - eapply ext_trans; [|apply ext_log_event; [|exact I]].
     + eapply ext_trans; [apply Hbase|]. apply ext_with_session; [reflexivity|simpl; lia].
     + unfold nruns in *. simpl. specialize (Hn x). simpl in Hn. rewrite Hn. exact Hlt.
-  - eapply ext_trans; [apply ext_log_event; [exact Hlt|exact I]|apply Hbase].
+  - eapply ext_trans; [|apply Hbase]. apply ext_log_event; [exact Hlt|exact I].
   - eapply ext_trans; [|apply Hbase].
     eapply ext_trans; [|apply ext_log_event; [rewrite nruns_upd; exact Hlt|exact I]]. apply ext_upd_run; reflexivity.
-  - eapply ext_trans; [apply ext_log_event; [exact Hlt|exact I]|apply Hbase].
+  - eapply ext_trans; [|apply Hbase]. apply ext_log_event; [exact Hlt|exact I].
 Qed.
 
 Lemma fail_session_ext : forall a x wi c, (wi < nruns x)%nat -> ext a x (fail_session x wi c).
 Proof.
   intros a x wi c Hlt. unfold fail_session. eapply ext_trans; [apply ext_fail_run; exact Hlt|].
   apply ext_with_session.
-  - intros ri. unfold events_of; simpl. rewrite nth_error_map.
-    destruct (nth_error (s_runs (session_ (fail_run x wi None c))) ri) as [r|]; simpl; auto. destruct (r_status r); reflexivity.
+  - intros ri. unfold events_of. cbn [session_ with_session s_runs set_status set_runs]. rewrite nth_error_map.
+    destruct (nth_error (s_runs (session_ (fail_run x wi None c))) ri) as [r|]; cbn [option_map]; auto. destruct (r_status r); reflexivity.
   - simpl. rewrite map_length. lia.
 Qed.
 
